@@ -70,6 +70,11 @@ func Read(path string) (*State, error) {
 	if err != nil {
 		return nil, err
 	}
+	return ReadData(d)
+}
+
+// ReadData projects a compound file held in memory.
+func ReadData(d []byte) (*State, error) {
 	if len(d) < 512 || hex.EncodeToString(d[:8]) != "d0cf11e0a1b11ae1" {
 		return nil, errors.New("not a compound file")
 	}
